@@ -468,9 +468,10 @@ where
                 .on_outgoing_disposition(disposition)
                 .map(SessionOutgoingItem::SingleFrame)
                 .map(Some)?,
-            LinkFrame::Detach(detach) => Some(SessionOutgoingItem::SingleFrame(
-                self.session.on_outgoing_detach(detach),
-            )),
+            LinkFrame::Detach(detach) => self
+                .session
+                .on_outgoing_detach(detach)
+                .map(SessionOutgoingItem::SingleFrame),
 
             #[cfg(feature = "transaction")]
             LinkFrame::Acquisition(_) => {
